@@ -9,7 +9,7 @@ import itertools, json, uuid
 from . import sym as S
 from . import smt
 from .values import UNDEF, EnumV, VecV, concretize, veq, merge, Unsupported
-from .scenario import make_engine, Inputs, sym_order, const_order_id, OrderView
+from .scenario import make_engine, Inputs, sym_order, sym_value, const_order_id, OrderView
 from .history import (Hist, order_json, order_id_str, uuid_str, canon, SIDE, UPDATE_KINDS, TAKER_ID, ABSENT_ID)
 from .framework import cube_stats
 
@@ -102,6 +102,8 @@ def build(cube, fixed=None, engine=None):
             p['slot'] = slot
             p['order'] = o
             p['rec'] = h.add(o)
+        elif op == 'I':
+            p.update(loop_iteration(c, k))
         elif op == 'M':
             q = inp.qty('q%d' % k)
             if cube.get('match_from_one', True):
@@ -141,6 +143,63 @@ def build(cube, fixed=None, engine=None):
 
 
 STALE_ID = 0x55
+SET_ASIDE_ID = 0x41
+
+
+def loop_iteration(c, k):
+    """op 'I': one iteration of match_order's loop from an ARBITRARY loop-head state (arbitrary level
+    state, arbitrary remaining quantity, arbitrary partial result, arbitrary set-aside list)"""
+    from .values import VecV
+    from .exec import store_path
+    h, L, inp, ex = c.h, c.L, c.inp, c.ex
+    # find the loop head: run a throw-away call that is cut at the first loop head
+    snap = (h.st.copy(), h.live, len(h.steps), len(ex.panics), len(ex.unwinds), len(ex.cuts), len(ex.unreach),
+            dict(c.models.used), c.models.fresh, len(c.models.clock_vars), len(c.models.v5_apps))
+    rec0 = h.match(S.bv(1, 64), cut_after=1)
+    if not rec0['cuts']:
+        raise Unsupported('cannot locate the loop head of match_order')
+    fn, block = rec0['cuts'][0]['fn'], rec0['cuts'][0]['block']
+    h.st, h.live = snap[0], snap[1]
+    del h.steps[snap[2]:]
+    del ex.panics[snap[3]:]
+    del ex.unwinds[snap[4]:]
+    del ex.cuts[snap[5]:]
+    del ex.unreach[snap[6]:]
+    del c.models.clock_vars[snap[9]:]
+    del c.models.v5_apps[snap[10]:]
+    q = inp.qty('q%d' % k)
+    r = inp.qty('rem%d' % k)
+    c.domain.append(S.Ule(r, q))
+    tx = sym_value(L, inp, 'Transaction', 'ptx%d' % k)
+    ntx = S.ZExt(inp.var('ptx%d.n' % k, 1), 64)
+    fid = target_id(inp, 'pfill%d' % k, max(1, len(c.slots)))
+    nfill = S.ZExt(inp.var('pfill%d.n' % k, 1), 64)
+    names = L.structs['MatchResult']
+    res = {'order_id': const_order_id(TAKER_ID), 'transactions': (VecV([tx], ntx),),
+           'remaining_quantity': inp.var('prem%d' % k, 64), 'is_complete': inp.var('pcomp%d' % k, S.B),
+           'filled_order_ids': VecV([fid], nfill)}
+    result = tuple(res[n] for n in names)
+    extra = {}
+    start = {'q': q, 'remaining': r, 'result': result, 'set_aside': None}
+    if 'set_aside' in fn.debug_names:
+        so = sym_order(L, inp, 'sa%d' % k, oid=const_order_id(SET_ASIDE_ID), price=h.P)
+        nsa = S.ZExt(inp.var('sa%d.n' % k, 1), 64)
+        sv = OrderView(L, so)
+        c.domain.append(S.Not(S.AddOvf(sv.displayed, sv.hidden)))
+        has = S.Eq(nsa, S.bv(1, 64))
+        c.supplied.append(S.Ite(has, S.Add(sv.displayed, sv.hidden), S.bv(0, 64)))
+        extra['set_aside'] = VecV([so], nsa)
+        start['set_aside'] = extra['set_aside']
+        # the level counters include the set-aside orders (they are still owned by the level)
+        lv = h.st.mem[h.root]
+        for fld, add in (('visible_quantity', S.Ite(has, sv.displayed, S.bv(0, 64))),
+                         ('hidden_quantity', S.Ite(has, sv.hidden, S.bv(0, 64))), ('order_count', nsa)):
+            i = L.field_index('PriceLevel', fld)
+            lv = store_path(lv, (i,), S.Add(lv[i], add))
+        h.st.mem[h.root] = lv
+    rec = h.match_iteration(fn, block, q, r, result, extra)
+    rec['start'].update(start)
+    return {'q': q, 'rec': rec, 'iteration': True}
 
 
 def arbitrary_state(c, pre):
@@ -263,13 +322,18 @@ def conc(v, model):
     return concretize(v, model, _uf_eval)
 
 
-def script_and_prediction(c, model):
-    """native script (JSON) for the history under `model` and the outputs the encoding predicts"""
+def script_and_prediction(c, model, upto=None):
+    """native script (JSON) for the history under `model` and the outputs the encoding predicts;
+    upto=k: predictions only for steps < k (step k is expected not to return)"""
     L = c.L
     ops = []
     pred = []
-    for p in c.params:
+    for k, p in enumerate(c.params):
         rec = p['rec']
+        if upto is not None and k >= upto:
+            if p['op'] == 'M':
+                ops.append({'op': 'match', 'quantity': conc(p['q'], model), 'taker': uuid_str(TAKER_ID)})
+            break
         if p['op'] in 'AR':
             ops.append({'op': 'add', 'order': order_json(L, conc(p['order'], model))})
             e = {'kind': 'add'}
@@ -417,12 +481,18 @@ def solve_cube(cube, prop_fn, solver='z3', timeout=300, cross=None):
                 r['why'] = 'model does not satisfy the query under our own evaluator (printer/solver mismatch)'
             else:
                 try:
-                    script, pred = script_and_prediction(c, model)
+                    if cube.get('native') is False:
+                        raise StopIteration
+                    script, pred = script_and_prediction(c, model, upto=o.get('expect_hang'))
+                    if o.get('expect_hang') is not None:
+                        r['expect_hang'] = o['expect_hang']
                     r['script'] = script
                     r['pred'] = pred
                     r['desc'] = describe(script)
                     if 'extra_pred' in o:
                         r['extra'] = o['extra_pred'](c, model)
+                except StopIteration:
+                    r['desc'] = 'state inside a call (not replayable)'
                 except Exception as e:  # noqa
                     r['verdict'] = 'unknown'
                     r['why'] = 'cannot build script: %r' % (e,)
@@ -491,6 +561,11 @@ def run_hist(run, prop_fn, cubes, timeout=300, cross=None, native=True, known_ke
                 run.obligations += 1
                 if r['verdict'] == 'unsat':
                     run.discharged += 1
+                elif r['verdict'] == 'sat' and cube.get('native') is False:
+                    run.inconclusive_('inductive step fails (cube %s, %s); the pre-state starts inside a call, so it '
+                                      'cannot be replayed on the real crate: either the invariant is too weak or the '
+                                      'code is wrong (see the history family for a replayable counterexample)'
+                                      % (r['cube'], r['name']))
                 elif r['verdict'] == 'sat':
                     candidates.append(r)
                 else:
@@ -499,7 +574,7 @@ def run_hist(run, prop_fn, cubes, timeout=300, cross=None, native=True, known_ke
                 run.witnesses += 1
                 if r['verdict'] == 'sat':
                     run.witness_sat += 1
-                    if native:
+                    if native and cube.get('native') is not False:
                         run.replayed += 1
                         nat = run_native(r['script'])
                         diffs = compare_native(r['script'], r['pred'], nat)
@@ -525,6 +600,12 @@ def run_hist(run, prop_fn, cubes, timeout=300, cross=None, native=True, known_ke
         diffs = compare_native(r['script'], r['pred'], nat)
         payload = {'property': run.pid, 'obligation': r['name'], 'cube': r['cube'], 'history': r['desc'],
                    'script': r['script'], 'predicted': r['pred'], 'native': nat, 'extra': r.get('extra')}
+        if r.get('expect_hang') is not None and not diffs:
+            res = nat.get('results') or []
+            kk = r['script'].get('setup_ops', 0) + r['expect_hang']
+            if not (len(res) > kk and res[kk].get('timeout')):
+                diffs = ['the real crate returned from the call the encoding says never returns: %r'
+                         % (res[kk] if len(res) > kk else res[-1:],)]
         if diffs and not r.get('native_decides'):
             run.inconclusive_('counterexample for %s (cube %s) does not reproduce natively: %s | %s'
                               % (r['name'], r['cube'], '; '.join(diffs[:3]), r['desc']))
